@@ -16,7 +16,9 @@
 EXTENDS Formulas, TLC, Json
 
 CONSTANTS MaxDepth, Mode, Emit,
-          SampleK    \* formulas deeper than 1 are emitted with probability 1/SampleK
+          SampleK,   \* formulas deeper than 1 are emitted with probability 1/SampleK
+          CheckK     \* formulas deeper than 1 are checked (and possibly emitted) with probability 1/CheckK;
+                     \* 1 = every formula.  Used where the theorem is expensive (Mode = "fix", depth 2).
 
 ASSUME NV = Len(NameSeq)
 
@@ -70,7 +72,9 @@ Case(g) ==
           fv |-> SortedNames(FV(g)), all |-> SortedNames(NamesOf(g)), ref |-> HasRef(g),
           loose |-> Sentence(g, TRUE), strict |-> Sentence(g, FALSE)]
 
-Holds == Thm(f) /\ ((Emit /\ (d < 2 \/ RandomElement(1..SampleK) = 1)) => PrintT(<<"CASE", ToJson(Case(f))>>))
+Holds ==
+    (d < 2 \/ CheckK = 1 \/ RandomElement(1..CheckK) = 1) =>
+        (Thm(f) /\ ((Emit /\ (d < 2 \/ RandomElement(1..SampleK) = 1)) => PrintT(<<"CASE", ToJson(Case(f))>>)))
 
 Init == f \in Roots /\ d = 0
 Grow == d < MaxDepth /\ d' = d + 1 /\ f' \in Wrap(f)
